@@ -189,7 +189,7 @@ class Gen:
         keys = SUB_KEYS if nested else TOP_KEYS
         if q < 0.35 and FN_ARITY[name] == 1:
             args = None
-        elif q < 0.4:
+        elif q < (0.4 if FN_ARITY[name] == 1 else 0.04):
             args = []
         elif q < 0.92:
             args = [r.choice(keys) for _ in range(FN_ARITY[name])]
@@ -222,7 +222,7 @@ class Gen:
         doc = self.document()
         p = r.random()
         if p < 0.78:
-            ver = r.randint(1, n + 1)
+            ver = 1 if r.random() < 0.4 else r.randint(1, n + 1)
         elif p < 0.87:
             ver = "absent"
         elif p < 0.91:
@@ -239,7 +239,7 @@ class Gen:
         ftypes = {}
         for k in TOP_KEYS:
             q = r.random()
-            if q < 0.7:
+            if q < 0.8:
                 ftypes[k] = "any"
             else:
                 ftypes[k] = {"a": "int", "b": "str", "c": "sub", "d": "subs"}.get(k, "any")
